@@ -500,7 +500,7 @@ func (ex *Exec) decimalDigits(st *State, v *term.Term, signed bool, minDigits in
 	}
 	var cands []cand
 	for _, sd := range sides {
-		if !ex.feasibleWith(st.G, sd.cond, true) {
+		if !ex.feasibleSt(st, sd.cond, true) {
 			continue
 		}
 		md := minDigits
@@ -526,7 +526,7 @@ func (ex *Exec) decimalDigits(st *State, v *term.Term, signed bool, minDigits in
 				hi = term.Ult(sd.abs, term.Const(w, pow10[k]))
 			}
 			cond := term.And(sd.cond, lo, hi)
-			if !ex.feasibleWith(st.G, cond, true) {
+			if !ex.feasibleSt(st, cond, true) {
 				continue
 			}
 			cands = append(cands, cand{cond, sd, k, k == md && md > 1})
@@ -648,7 +648,7 @@ func (ex *Exec) parseResults(c *CallCtx, fn string, s StringV, val, synOK, range
 	alts := []alt{{term.And(synOK, rangeOK), 0}, {term.Not(synOK), 1}, {term.And(synOK, term.Not(rangeOK)), 2}}
 	var feas []alt
 	for _, a := range alts {
-		if ex.feasibleWith(st.G, a.cond, false) {
+		if ex.feasibleSt(st, a.cond, false) {
 			feas = append(feas, a)
 		}
 	}
@@ -686,7 +686,7 @@ func (ex *Exec) atoiSigned(c *CallCtx, s StringV) []*callResult {
 	}
 	alts := []alt{{term.And(term.Not(isMinus), term.Not(isPlus)), s.B, false}, {isPlus, s.B[1:], false}, {isMinus, s.B[1:], true}}
 	for _, a := range alts {
-		if !ex.feasibleWith(st.G, a.cond, false) {
+		if !ex.feasibleSt(st, a.cond, false) {
 			continue
 		}
 		ns := st.fork(a.cond)
